@@ -864,6 +864,12 @@ fn pool_k(cx: &mut Ctx, pair: &str, p: &[f64]) -> Vec<f64> {
     for _ in 0..8 {
         v.push(cx.r.below(300) as f64);
     }
+    if pair == "Geometric(p)~NegativeBinomial(1,p)" {
+        // unbounded support: lattice points around the 32-bit and 53-bit boundaries (integer casts, powi exponents)
+        for k in [2147483646.0, 2147483647.0, 2147483648.0, 2147483649.0, 4294967296.0, 4294967298.0, 9007199254740992.0, 1e18] {
+            v.push(k);
+        }
+    }
     if pair.starts_with("DiscreteUniform") {
         for _ in 0..4 {
             v.push(-(cx.r.below(100) as f64));
